@@ -138,8 +138,14 @@ def main(tier, seed):
     ncb = 32 if tier == 'quick' else 300
     def job2(i):
         return nhist + i, comeback_history(exe, os.path.join(vlib.scratch(), 'cb%d' % i), seed * 100000 + 7000 + i, stats)
+    nem = 24 if tier == 'quick' else 200
+    def job3(i):
+        # a disk loses every file while its extent reaches beyond all live files, partial sync saves the state
+        # (shared with C10: the reloaded state must still describe what the parity holds)
+        import chk_C10
+        return nhist + ncb + i, chk_C10.emptied_disk_history(exe, os.path.join(vlib.scratch(), 'em%d' % i), seed * 100000 + 8000 + i, stats)
     with ThreadPoolExecutor(vlib.NCPU) as ex:
-        res = list(ex.map(job, range(nhist))) + list(ex.map(job2, range(ncb)))
+        res = list(ex.map(job, range(nhist))) + list(ex.map(job2, range(ncb))) + list(ex.map(job3, range(nem)))
     nbad = 0
     for i, r in res:
         if r:
@@ -151,7 +157,7 @@ def main(tier, seed):
             chk.violation('C06 static obligation failed: ' + o[0], o[0] + '\n' + o[2], False, 'static')
     chk.evaluations = stats.get('checked_levels', 0)
     chk.distinct = stats.get('synced_stripes', 0)
-    chk.rule = ('%d seeded histories x %d commands from {sync, -B, -S -B, kill-after-sync, -h, -F, -R, forced autosave, scrub, fix (filtered), touch, rehash} interleaved with 1-5 random file operations; after EVERY command the content file is decoded by the Lean decoder and, for every stripe whose allocated blocks are all BLK, parity of every level is recomputed by the Lean genSpec from the harness version store and compared with the parity files; extent well-formedness checked on the decoded map. plus %d come-back histories (files deleted, parity updated by a sync killed before the content save, the same bytes restored, plain sync). evaluations = stripe-levels compared, distinct_nontrivial = fully synced stripes examined' % (nhist, steps, ncb))
+    chk.rule = ('%d seeded histories x %d commands from {sync, -B, -S -B, kill-after-sync, -h, -F, -R, forced autosave, scrub, fix (filtered), touch, rehash} interleaved with 1-5 random file operations; after EVERY command the content file is decoded by the Lean decoder and, for every stripe whose allocated blocks are all BLK, parity of every level is recomputed by the Lean genSpec from the harness version store and compared with the parity files; extent well-formedness checked on the decoded map. plus %d emptied-disk histories (partial sync -E -B k after a disk lost all its files) and %d come-back histories (files deleted, parity updated by a sync killed before the content save, the same bytes restored, plain sync). evaluations = stripe-levels compared, distinct_nontrivial = fully synced stripes examined' % (nhist, steps, nem, ncb))
     chk.samples = [dict(stats)]
     chk.corr['E2E-INV'] = {k: v for k, v in stats.items() if k != 'commands'}
     chk.extra['command_distribution'] = stats['commands']
